@@ -110,6 +110,9 @@ static void judge(const std::string &key, const std::string &tag, Sys &S, const 
         if (o.what.find("HARNESS") != std::string::npos) { vf::fail("harness.param", key, o.what + in); return; }
         if (allowed_breakdown(o.what)) { vf::count("breakdown_exception." + tag); return; }
         if (ref.threw && ref.what == o.what) { vf::count("same_exception_as_scalar." + tag); return; }
+        // a scalar coarsening (ruge_stuben) under a formulation that converts every scalar level to b x b blocks (as_block, hybrid):
+        // the number of C-points need not be a multiple of b; amgcl refuses with a precondition, which is a clean outcome
+        if (rq.coarsening == "ruge_stuben" && o.what.find("not divisible by block size") != std::string::npos) { vf::count("ruge_stuben_level_not_divisible." + tag); return; }
         vf::fail("path.exception." + tag, key, "exception '" + o.what + "'" + (ref.threw ? " (scalar reference threw '" + ref.what + "')" : " (scalar reference did not throw)") + in);
         return;
     }
@@ -126,7 +129,10 @@ static void judge(const std::string &key, const std::string &tag, Sys &S, const 
     ld tr = truth(S.A, S.f, o.x);
     ld bd = bound(o.iters, S.A.n, S.sv, sg::norm2_ld(rq.x0), sg::norm2_ld(o.x), S.fn, o.resid);
     ld diff = fabsl((ld)o.resid - tr);
-    if (!(diff <= bd)) vf::fail("path.truthful." + tag, key, vf::KS() << "reported=" << o.resid << " true=" << (double)tr << " |diff|=" << (double)diff << " > bound=" << (double)bd << " iters=" << o.iters << " kappa=" << S.sv.kappa << in);
+    // a run that ended above its starting residual (x0 = 0: relative residual 1) returned no solution and claims none; the bound
+    // below is in terms of max(||x0||,||x||) and does not cover the intermediate growth of a diverging BiCGStab-type recurrence
+    if (o.resid > 1 || tr > 1) { vf::count("diverged_not_judged_for_truthfulness." + tag); }
+    else if (!(diff <= bd)) vf::fail("path.truthful." + tag, key, vf::KS() << "reported=" << o.resid << " true=" << (double)tr << " |diff|=" << (double)diff << " > bound=" << (double)bd << " iters=" << o.iters << " kappa=" << S.sv.kappa << in);
     else if (o.resid < 1e-8 && !(tr <= 1e-8L * (1 + 1e-6L) + bd)) vf::fail("path.tol." + tag, key, vf::KS() << "reported=" << o.resid << " < tol but true=" << (double)tr << " bound=" << (double)bd << in);
     else { ld q = bd > 0 ? diff / bd : 0; vf::count(q <= 1e-3L ? "margin.diff_over_bound_le_1e-3" : q <= 1e-1L ? "margin.diff_over_bound_le_1e-1" : "margin.diff_over_bound_le_1"); }
     bool conv = o.resid < 1e-8;
@@ -167,10 +173,13 @@ int main(int argc, char **argv) {
                     vf::count(ref.threw ? "scalar_reference.threw" : refconv ? "scalar_reference.converged" : "scalar_reference.not_converged");
                     bool any2 = false;
                     for (auto &p : ps) for (int form = 0; form < 2; ++form) {
+                        // single-precision preconditioner: only the documented call form S(A, rhs, x) with the user's double-precision
+                        // matrix; S(rhs, x) would iterate on the preconditioner's single-precision copy of the matrix
+                        if (form == 0 && p.name.find("mixed") != std::string::npos) continue;
                         rq.form = form;
                         Out o = p.run(rq);
                         if (o.ran && !o.threw && (o.levels >= 2 || o.iters >= 2)) any2 = true;
-                        judge(key, p.btype + std::to_string(b) + "." + p.name, S, rq, o, ref, refconv);
+                        judge(key, p.btype + std::to_string(b) + "." + p.name + (form ? ".A" : ""), S, rq, o, ref, refconv);
                     }
                     if (any2) vf::nontrivial(vf::hstr(key));
                 }
